@@ -10,6 +10,8 @@ the parent only isolates an input when the child dies on it), and records for ea
   * the bounded-liveness surrogates of "no unbounded loop / allocation": a CPU-time limit per input
     (ITIMER_PROF, so that a loaded machine cannot cause a false timeout), RLIMIT_AS, and any MemoryError /
     RecursionError RAISED during the call, even if some except clause swallowed it (sys.monitoring RAISE).
+    (A peak-RSS criterion was tried and dropped: ru_maxrss is a high-water mark of the whole child, so whether an
+    input trips it depends on the inputs that ran before it.)
 Nothing is judged here; the events go to specs/IdentTrace.tla."""
 import hashlib
 import json
@@ -30,7 +32,6 @@ STAGE_MODULE = {"ELF": "system/elf.py", "PE": "system/pe.py", "MachO": "system/m
                 "HEX": "system/structs/HEX.py", "SREC": "system/structs/SREC.py"}
 ORDER = ("ELF", "PE", "MachO", "COFF", "HEX", "SREC")
 AS_LIMIT = 1 << 30
-RSS_JUMP_KB = 300 * 1024
 
 
 class _Timeout(BaseException):
@@ -200,12 +201,10 @@ def finish_events(res, exc, done, jump, data=b""):
         ev.append({"a": "timeout", "f": "-", "e": "-", "cur": 0})
         info = {"kind": "timeout", "stage": stage, "exc": "cpu-limit", "frame": pick_frame(S.where or [], stage),
                 "swallowed_by_bare_except": bool(done)}
-    elif S.exh is not None or jump > RSS_JUMP_KB:
-        e = S.exh[0] if S.exh else "rss-jump"
-        ev.append({"a": "exhaust", "f": "-", "e": e, "cur": 0})
-        info = {"kind": "exhaust", "stage": stage, "exc": e,
-                "frame": ("%s:%s" % (S.exh[1], S.exh[2])) if S.exh else "?:?", "escaped": exc is not None,
-                "rss_jump_kb": jump}
+    elif S.exh is not None:
+        ev.append({"a": "exhaust", "f": "-", "e": S.exh[0], "cur": 0})
+        info = {"kind": "exhaust", "stage": stage, "exc": S.exh[0], "frame": "%s:%s" % (S.exh[1], S.exh[2]),
+                "escaped": exc is not None, "rss_jump_kb": jump}
     elif exc is not None:
         fr, tb = [], exc.__traceback__
         while tb is not None:
